@@ -20,6 +20,11 @@ from coba.context import CobaContext, BasicLogger, NullCacher, MemoryCacher   # 
 from vf.lib.mpharness import TenTimes, TenTimesGen, InjectedError              # noqa: E402
 
 
+# the two completion callbacks run on callback threads of the parent and update shared counters (_n_procs, _exceptions):
+# every source line inside them is a scheduling point
+sched.trace_lines(sched.nested_code(Multiprocessor.filter, 'loader_finished_or_failed', 'filter_finished_or_failed'), 'parent-callbacks')
+
+
 def make_body(case):
     wrapper, n, m, nitems, faults, consumer = case['wrapper'], case['n'], case['m'], case['items'], case['faults'], case['consumer']
     items = list(range(1, nitems + 1))
